@@ -61,8 +61,8 @@ func (c12) Gen(seed int64, tier string, avoid []string) *Plan {
 	switch {
 	case avoidSet["c12-"+cfg.Kind+"-"+cfg.Mode], avoidSet["c12-"+cfg.Kind],
 		avoidSet["c12-cc-churn"] && cfg.Mode == "churn" && (cfg.Kind == "cc_noop" || cfg.Kind == "cc_leaky"),
-		avoidSet["c12-rtpfb"] && cfg.Kind == "rtpfb" && cfg.Mode != "feedback",
-		avoidSet["c12-jitterbuffer-lossy"] && cfg.Kind == "jitterbuffer" && (cfg.Mode == "loss" || cfg.Mode == "dup"):
+		avoidSet["c12-rtpfb-nofeedback"] && cfg.Kind == "rtpfb" && cfg.Mode != "feedback",
+		avoidSet["c12-jitterbuffer-lossy"] && cfg.Kind == "jitterbuffer" && (cfg.Mode == "loss" || cfg.Mode == "dup" || cfg.Mode == "many"):
 		cfg.Kind = "report_send" // the trigger of an open known finding: spend the run elsewhere
 	}
 	p.Cfg = mustJSON(cfg)
@@ -83,6 +83,7 @@ type c12Live struct {
 	li, ri       *interceptor.StreamInfo
 	lssrc, rssrc uint32
 	seq          uint16
+	gappy        bool // this stream's numbers have gaps (something to NACK)
 }
 
 type c12Writer struct{ n *int }
@@ -107,7 +108,7 @@ func (c12) Run(e *Env) {
 	e.S.OnRelease = nil
 	ch := rg.chain
 	nOut, nRTCP := 0, 0
-	ch.BindRTCPWriter(interceptor.RTCPWriterFunc(func(p []rtcp.Packet, _ interceptor.Attributes) (int, error) {
+	rtcpW := ch.BindRTCPWriter(interceptor.RTCPWriterFunc(func(p []rtcp.Packet, _ interceptor.Attributes) (int, error) {
 		nRTCP++
 		return 0, nil
 	}))
@@ -180,6 +181,15 @@ func (c12) Run(e *Env) {
 		})
 		rtcpIn = raw
 		rtcpR.Read(rbuf, interceptor.Attributes{})
+		// the application's own reports go out through the chain as well (compound: several reports in one batch)
+		rtcpW.Write([]rtcp.Packet{
+			&rtcp.SenderReport{SSRC: 1100, NTPTime: uint64(e.S.Now()) << 16, RTPTime: h.Timestamp, PacketCount: uint32(lseq), Reports: []rtcp.ReceptionReport{{SSRC: 2200, LastSequenceNumber: uint32(rseq)}}},
+			&rtcp.SenderReport{SSRC: 1100, NTPTime: uint64(e.S.Now())<<16 + 1, RTPTime: h.Timestamp, PacketCount: uint32(lseq), Reports: []rtcp.ReceptionReport{{SSRC: 2200, LastSequenceNumber: uint32(rseq)}}},
+			&rtcp.ExtendedReport{SenderSSRC: 1100, Reports: []rtcp.ReportBlock{
+				&rtcp.ReceiverReferenceTimeReportBlock{NTPTimestamp: uint64(e.S.Now()) << 16},
+				&rtcp.ReceiverReferenceTimeReportBlock{NTPTimestamp: uint64(e.S.Now())<<16 + 1},
+			}},
+		}, interceptor.Attributes{})
 	}
 	var heap []uint64
 	var objs []uint64
@@ -231,6 +241,13 @@ func (c12) Run(e *Env) {
 				rseq++
 			case "feedback":
 				sendOne()
+				if i%13 == 5 {
+					// the application sends the same packet once more (same numbers)
+					lseq--
+					tseq--
+					h.Timestamp -= 3000
+					sendOne()
+				}
 				recvOne(rseq)
 				rseq++
 				if i%20 == 19 {
@@ -264,13 +281,14 @@ func (c12) Run(e *Env) {
 					ch.UnbindRemoteStream(old.ri)
 				}
 				cw, crd, cli, cri := bindPair(50000+cycle, 90000+cycle)
-				live = append(live, c12Live{cw, crd, cli, cri, 50000 + cycle, 90000 + cycle, 0})
+				// (which streams have gaps must not correlate with the instants at which timers fire)
+				live = append(live, c12Live{cw, crd, cli, cri, 50000 + cycle, 90000 + cycle, 0, (cycle*0x9E3779B1>>20)&1 == 0})
 				for li := range live {
 					l := &live[li]
 					l.seq++
 					sq := l.seq
-					if cycle%2 == 0 {
-						sq = l.seq * 3 // every other generation of streams has gaps (something to NACK)
+					if l.gappy {
+						sq = l.seq * 3
 					}
 					hh := &rtp.Header{Version: 2, SSRC: l.lssrc, PayloadType: 96, SequenceNumber: sq}
 					l.w.Write(hh, payload[:20], interceptor.Attributes{})
